@@ -176,8 +176,15 @@ class C15(Check):
                 for sym in al:
                     h = mk(sym)
                     case = {"res": res, "strategy": strategy, "ops": prefix + [h]}
-                    _obs, steps = run_history(case)
+                    _obs, steps = self._safe_impl(case)
                     self.explored_edges += 1
+                    if not isinstance(steps, list):      # the implementation raised / hung
+                        v = self.monitor(case, None, steps)
+                        v.case = case
+                        self.violations.append(v)
+                        out.append(case["ops"])
+                        extended = True
+                        continue
                     st = steps[-1]
                     if st["ret"] == [-1]:
                         continue                       # call on an inactive operation / reused id: nothing happens
@@ -242,6 +249,17 @@ class C15(Check):
             prios = [rng.choice([0, 0, 1, 2]) for _ in range(nops)]
             ops = [["start", o, prios[o - 1]] for o in range(1, nops + 1)]
             rng.shuffle(ops)
+            if rng.random() < 0.3:
+                # a ring: op i takes r_i, then asks for r_(i+1): a wait-for cycle of length n
+                n = min(nops, nres) if rng.random() < 0.7 else 2
+                res = [[r, (p and rng.random() < 0.3)] for r, p in res]
+                first = [["acq", i, i] for i in range(1, n + 1)]
+                second = [["acq", i, i % n + 1] for i in range(1, n + 1)]
+                rng.shuffle(first)
+                rng.shuffle(second)
+                ops += first + second
+                if rng.random() < 0.7:
+                    ops.append(["wd"])
             for _ in range(rng.randint(3, 12)):
                 k = rng.random()
                 o = rng.randint(1, nops)
